@@ -16,9 +16,9 @@ CLAIMED = {
  'C08': ('proof', 'Per-phase theorems addStart_spec, removeEps_spec (incl. nullable_exact), elimUnit_spec (incl. derivable_exact, order independence), binarise_spec, isolateTerminals_spec (language preserved + postcondition + fresh variables new and pairwise distinct, also beyond 26 variables: freshVariable_fresh, freshVariables_distinct); the model tracks the aliasing of Alternative objects that the in-place phases observe. Composition toChomsky_spec and applyChomsky_lang (every phase prefix).', '6 C08'),
  'C09': ('proof', 'Theorems pda_moves_iff, pda_epsClosure_sound/complete/not_truncated, pda_accepts_sound (every limit, every pop order), pda_accepts_complete (whenever no closure on the way is truncated).', '6 C09'),
  'C18': ('proof', 'Theorems nfa_union_spec, nfa_concat_spec, nfa_repetition_spec (valid result, epsilon preserved, language = union / concatenation / Kleene star) for disjoint operands and any fresh state; nfa_union_spec_eps / nfa_concat_spec_eps for operands with DIFFERENT epsilon symbols (exact condition: the epsilon of the first operand is not an input symbol of the second) and nfa_*_eps_clash otherwise (the constructor assertion fails); genFresh_fresh (the generated name is never an operand state, whatever the counter), nfa_union_history_indep.', '6 C18'),
- 'C04': ('proof', 'Theorems table_exact / minimizeTable_spec (table filling), quotient_spec (Moore refinement), hopcroft_spec / hopcroft_terminates (Hopcroft with the stale waiting-set entries of the code, every pop order): each routine terminates within its fuel and returns a valid DFA over the same alphabet whose states are exactly the Myhill-Nerode classes of ALL input states (DFA.IsNerode), hence same language, pairwise distinguishable states, size = number of classes (which lies between the class counts of reachable and of all states).', '6 C04'),
+ 'C04': ('proof', 'Theorems table_exact / minimizeTable_spec (table filling), quotient_spec (Moore refinement), hopcroft_spec / hopcroft_terminates (Hopcroft with the stale waiting-set entries of the code, every pop order): each routine terminates within its fuel and returns a valid DFA over the same alphabet whose states are exactly the Myhill-Nerode classes of ALL input states (DFA.IsNerode), hence same language, pairwise distinguishable states, size = number of classes (which lies between the class counts of reachable and of all states). With print_state_set names: minimize/quotient/hopcroft_named_clean (full statement for non-empty comma-free state names) and minimize_name_collision_witness (recorded finding minimize-class-name-collision).', '6 C04'),
  'C06': ('proof', 'Theorems regexpToNfa_spec (Thompson composition with generated names and the shared alphabet accumulator: valid NFA, language = denoted language, all word lengths), toGnfa_spec, rip_spec, rip_label_lang, toRegexp_lang (state elimination in EVERY order yields an expression denoting exactly L(D)).', '6 C06'),
- 'C10': ('proof', 'Theorems pda_oneAccepting_spec, pda_emptyStack_spec / pda_emptyStackS_spec (with the drain state: same language and acceptance only with the empty stack), pda_pushPopS_spec, tripleCfg_sound / tripleCfg_complete / tripleCfg_lang (Sipser Lemma 2.27 for the model of the triple construction); the end-to-end composition pda_toCfg_lang.', '6 C10'),
+ 'C10': ('proof', 'Theorems pda_oneAccepting_spec, pda_emptyStack_spec / pda_emptyStackS_spec (with the drain state: same language and acceptance only with the empty stack), pda_pushPopS_spec, tripleCfg_sound / tripleCfg_complete / tripleCfg_lang (Sipser Lemma 2.27 for the model of the triple construction); the end-to-end composition pda_toCfg_lang (state names without an apostrophe; otherwise the recorded finding pda2cfg-variable-name-collision).', '6 C10'),
  'C12': ('proof', 'Theorems compare_none_iff / compare_extra / compare_missing (language comparison: empty feedback iff equal; reported word genuine, right polarity, minimal length, extra before missing) and chk_*_sound for every object-level checker model (language-from-words, accept/reject lists, three products, complement, reverse, minimal, NFA->DFA, CYK table, derivations, Chomsky phases): verdict OK implies the exercise criterion. TEXT level (Model/CheckText.lean = library parsers o checker o verdict): complement/product/reverse/minimal/nfa2dfa/dfa2regexp/cyk/derivation/chomsky_text_sound with no hypothesis other than that the verdict is OK (validity and duplicate-freeness of parser results are proved); the whole pipeline is tied to the Python checkers on every (instance, answer) pair. The generated ANTLR regexp parser recovers from syntax errors; the Lean parser is strict, texts it rejects are outside the dfa2regexp tie.', '6 C12'),
  'C15': ('proof', 'Theorems dfa_simulate_valid, nfa_simulate_valid, nfa_simulate_some_iff (a genuine accepting run is produced, in finite time, exactly for accepted words, every pop order; generic back-pointer search findPath_sound/none/total), pda_simulate_valid / _accepts / _none_iff, cfg_derive_valid / cfg_derive_rejects (leftmost and rightmost derivations from the CYK table). PDA termination is the partial clause pda_simulate_terminates_partial (finite epsilon-reachable universe).', '6 C15'),
  'C20': ('proof', 'Theorems isomorphic1_iff, isomorphic_iff (both routines terminate within their fuel and answer True exactly when the reachable parts are isomorphic, every exploration order), iso_symm, iso_lang, iso_rename, isomorphic_agree.', '6 C20'),
@@ -26,7 +26,7 @@ CLAIMED = {
  'C19': ('proof', 'Order independence is proved per operation (c19_nfa_accepts, c19_nfa_words, c19_nfaToDfa, c19_hopcroft, c19_minimizers_agree, c19_toRegexp, c19_elimUnit, c19_isomorphic, c19_pda_accepts: identical value / same classes / same language for every scheduler). Argument immutability at the alias sites is proved in the heap micro-model (repetitionCopied_frame, concatCopied_frame, *_operand(s)_intact; the original shared versions are proved to mutate: *_mutates). PARTIAL: heap-level immutability outside the modelled alias sites, history independence and process-level hash-seed independence are carried by the harness (argument snapshots around every call, repeated calls, logging on/off, random call prefixes, in-place edits, 2-8 fresh processes with different PYTHONHASHSEED).', '6 C19'),
  'C16': ('proof', 'Theorems parse_print_dfa, parse_print_nfa, parse_print_pda, parse_print_tm (+ _raw variants): for every valid automaton whose state names are \\w+ and not keywords of the format and whose symbols are printable (single characters of the label classes for PDA/TM), parsing the printed text returns an automaton with the same states, alphabets, initial / accepting / halting states and transition function (F empty, alphabet empty, isolated states, several labels per edge included). parseFull_printFull, parseSimple_printSimple (both regexp syntaxes: same language, same printed form), parse_print_cfg (simple grammar format, Printable grammars); the Lean reference parsers / printers (Model/RegexpText.lean, Model/CfgText.lean) are tied to the ANTLR / regex based implementation by correspondence.', '6 C16'),
  'C17': ('proof', 'Theorems parseX_ok_valid for the four parsers (no parser ever returns an object violating its class invariant, for EVERY text), parseX_builds (the returned automaton is exactly the documented function of the parsed lines: declared or derived state set and alphabets, default epsilon / blank, last TM transition wins), rejection theorems (nondeterministic or non-total DFA, undeclared state, no / several initial states, repeated declaration, transition with fewer than three words), parseDfa/Nfa_ok_valid_gen (any state-label pattern: valid, duplicate-free states and keys), parseSimpleCfg_ok_valid. Rendered layouts and single-fault corruptions are the tie.', '6 C17'),
- 'C14': ('proof', 'Theorems product_valid/product_*_lang, complement_*, mapStates_*, noPrefix_*, makeTotal_*, freshState_fresh and the finite-language helper specs (lang*_spec, wordsOfLength_spec, wordsUpTo_spec). and reachableStates_zero/pos, removeUnreachable_spec, noExtend_spec, reverse_valid, reverse_lang.', '6 C14'),
+ 'C14': ('proof', 'Theorems product_valid/product_*_lang, complement_*, mapStates_*, noPrefix_*, makeTotal_*, freshState_fresh and the finite-language helper specs (lang*_spec, wordsOfLength_spec, wordsUpTo_spec). and reachableStates_zero/pos, removeUnreachable_spec, noExtend_spec, reverse_valid, reverse_lang. Product names (p,q): theorems for comma-free state names; with commas the recorded finding product-name-collision.', '6 C14'),
 }
 
 NOT_YET = 'check under construction in this round (model/tie exist or are being written; no theorem registered yet); see DESIGN.md section 6'
